@@ -306,7 +306,7 @@ def main(prop, argv=None):
     kmap0 = {k.name: k for k in kernels}
     jobs = [(p, kn, sh, dict(o, frontier=kmap0[kn].split_depth) if kmap0[kn].split_depth else o)
             for p, kn, sh, o in jobs]
-    with ctx.Pool(min(args.jobs, max(1, len(jobs))), maxtasksperchild=1) as pool:
+    with ctx.Pool(args.jobs, maxtasksperchild=1) as pool:
         second = []
         for r in pool.imap_unordered(worker, jobs, chunksize=1):
             results.append(r)
@@ -318,10 +318,11 @@ def main(prop, argv=None):
         for r in pool.imap_unordered(worker, second, chunksize=1):
             results.append(r)
     results.sort(key=lambda r: (r['kernel'], json.dumps(r['shape'], sort_keys=True)))
+    t_explore = round(time.time() - t0, 1)
     if args.verbose:
         for r in results:
             st = r.get('stats') or {}
-            print(f"  {r['kernel']} wall={r['wall_s']} paths={st.get('paths')} queries={st.get('queries')} "
+            print(f"  {r['kernel']} wall={r['wall_s']} frontier={len(r.get('frontier') or [])} forced={r.get('forced')} paths={st.get('paths')} queries={st.get('queries')} "
                   f"solver_s={round(st.get('solver_s', 0), 1)} shape={json.dumps(r['shape'])[:200]}")
 
     errors = [r for r in results if r['error']]
@@ -392,26 +393,43 @@ def main(prop, argv=None):
     known = load_known(prop)
     reported = []
     known_hits = []
+    seen_sigs = set()
+    cand = []
     for kn, sh, v in violations:
         k = kmap[kn]
-        item = {'kernel': kn, 'shape': sh, 'inputs': v['inputs'], 'label': v['label'],
-                'detail': v.get('detail'), 'notes': v.get('notes')}
-        if k.native:
-            try:
-                nr = run_native(prop, [item])[0]
-            except Exception as e:   # noqa
-                harness_errors.append(f'replay failed for {kn}: {e}')
+        vsig = (kn, v['label'], json.dumps((v.get('detail') or {}).get('signature')
+                                           if isinstance(v.get('detail'), dict) else None))
+        if vsig in seen_sigs and sum(1 for x in cand if x['kernel'] == kn) >= 3:
+            continue
+        seen_sigs.add(vsig)
+        cand.append({'kernel': kn, 'shape': sh, 'inputs': v['inputs'], 'label': v['label'],
+                     'detail': v.get('detail'), 'notes': v.get('notes')})
+    cand = cand[:24]
+    to_replay = [it for it in cand if kmap[it['kernel']].native]
+    nres = []
+    if to_replay:
+        try:
+            nres = run_native(prop, to_replay)
+        except Exception as e:   # noqa
+            harness_errors.append(f'replay failed: {e}')
+            to_replay = []
+    nmap = {id(it): nr for it, nr in zip(to_replay, nres)}
+    for item in cand:
+        kn = item['kernel']
+        if kmap[kn].native:
+            nr = nmap.get(id(item))
+            if nr is None:
                 continue
             if not nr['violation']:
                 harness_errors.append(
-                    f'counterexample of {kn} ({v["label"]}) did not reproduce natively '
-                    f'(error={nr["error"]}); inputs={json.dumps(v["inputs"])[:800]}')
+                    f'counterexample of {kn} ({item["label"]}) did not reproduce natively '
+                    f'(error={nr["error"]}); inputs={json.dumps(item["inputs"])[:800]}')
                 continue
             item['native'] = nr['violation']
             label = nr['violation']['label']
             detail = nr['violation'].get('detail')
         else:
-            label, detail = v['label'], v.get('detail')
+            label, detail = item['label'], item.get('detail')
         f = match_known(known, kn, label, detail)
         if f:
             known_hits.append((f, item))
@@ -519,6 +537,8 @@ def main(prop, argv=None):
         os.makedirs(os.path.join(VERIF, 'evidence'), exist_ok=True)
         with open(os.path.join(VERIF, 'evidence', f'{prop}.json'), 'w') as f:
             json.dump(ev, f, indent=1)
+    if args.verbose:
+        print(f'  phases: explore={t_explore}s total={wall}s')
     print(f'{prop} tier={tier}: kernels={len(kernels)} shapes={len(jobs)} paths={total["paths"]} '
           f'complete={total["complete"]} obligations={total["obligations"]} discharged={total["discharged"]} '
           f'inconclusive={inconclusive} violations={len(reported)} known={len(seen_known)} '
